@@ -978,6 +978,24 @@ func copyDeferArg(v reflect.Value) reflect.Value {
 	return c
 }
 
+// deferCallSlice returns a function calling the variadic function fn with its last
+// argument as the list of variadic arguments: fn(a, s...). A deferred call is run
+// with reflect.Value.Call, which would take s for a single variadic argument.
+func deferCallSlice(fn reflect.Value) reflect.Value {
+	t := fn.Type()
+	in := make([]reflect.Type, t.NumIn())
+	for i := range in {
+		in[i] = t.In(i)
+	}
+	out := make([]reflect.Type, t.NumOut())
+	for i := range out {
+		out[i] = t.Out(i)
+	}
+	return reflect.MakeFunc(reflect.FuncOf(in, out, false), func(args []reflect.Value) []reflect.Value {
+		return fn.CallSlice(args)
+	})
+}
+
 func genBuiltinDeferWrapper(n *node, in, out []func(*frame) reflect.Value, fn func([]reflect.Value) []reflect.Value) {
 	next := getExec(n.tnext)
 
@@ -1345,6 +1363,9 @@ func call(n *node) {
 		n.exec = func(f *frame) bltn {
 			val := make([]reflect.Value, len(values)+1)
 			val[0] = value(f)
+			if hasVariadicArgs {
+				val[0] = deferCallSlice(val[0])
+			}
 			for i, v := range values {
 				val[i+1] = copyDeferArg(v(f))
 			}
@@ -1630,6 +1651,9 @@ func callBin(n *node) {
 		n.exec = func(f *frame) bltn {
 			val := make([]reflect.Value, l+1)
 			val[0] = value(f)
+			if n.action == aCallSlice {
+				val[0] = deferCallSlice(val[0])
+			}
 			for i, v := range values {
 				val[i+1] = copyDeferArg(getBinValue(getMapType, v, f))
 			}
